@@ -308,6 +308,7 @@ Definition l0_op (d : wdecl) (o : op) : bool :=
   | OToDirect (LArch b) KEnt TAny (RIssued _) => b <? length (wd_archs d)
   | OWrite p _ KEnt TAny (RIssued _) _ _ => wpath_direct p
   | OLen _ => true
+  | OReadAll _ a => a <? length (wd_archs d)
   | _ => false
   end.
 
@@ -1109,6 +1110,105 @@ Proof.
       split_and!; [done|etrans; [apply list_lookup_insert_ne; congruence|exact Hx2]|done].
 Qed.
 
+(* ---------------------------------------------------------------- reading everything *)
+
+Lemma chunk_concat k : 0 < k -> forall (rows : list (list N)) f, Forall (fun r => length r = k) rows -> length rows <= f ->
+  chunk k f (concat rows) = rows.
+Proof.
+  intros Hk. induction rows as [|r rs IH]; intros f Hall Hf.
+  - by destruct f.
+  - apply Forall_cons in Hall as [Hr Hall]. destruct f as [|f]; [cbn in Hf; lia|]. cbn [concat chunk].
+    destruct (r ++ concat rs) as [|x l] eqn:E.
+    { destruct r; [cbn in Hr; lia|done]. }
+    rewrite <- E. rewrite take_app_alt, drop_app_alt by done. f_equal. apply IH; [done|cbn in Hf; lia].
+Qed.
+
+Lemma multiset_eq_perm (a b : list (list N)) : a ≡ₚ b -> multiset_eq a b = true.
+Proof.
+  intros Hp. unfold multiset_eq. rewrite (Permutation_length Hp), Nat.eqb_refl. cbn [andb].
+  apply forallb_forall. intros x _. apply Nat.eqb_eq. apply Permutation_length. by apply filter_Permutation.
+Qed.
+
+Lemma find_sent_some_elem h l se : find_sent h l = Some se -> se ∈ l /\ se_h se = h.
+Proof.
+  induction l as [|x l IH]; [done|]. rewrite find_sent_cons. case_decide as Hd.
+  - intros [= <-]. split; [apply elem_of_list_here|done].
+  - intros Hf. destruct (IH Hf) as [Hin Hh]. split; [by apply elem_of_list_further|done].
+Qed.
+
+Lemma find_sent_nodup l se : NoDup (handles_of l) -> se ∈ l -> find_sent (se_h se) l = Some se.
+Proof.
+  induction l as [|x l IH]; [intros _ H; by apply elem_of_nil in H|].
+  unfold handles_of. rewrite fmap_cons. intros Hnd Hin. apply NoDup_cons in Hnd as [Hx Hnd]. rewrite find_sent_cons.
+  apply elem_of_cons in Hin as [->|Hin]; [by rewrite decide_True|].
+  rewrite decide_False; [by apply IH|]. intros E. apply Hx. rewrite E. by apply elem_of_list_fmap_1.
+Qed.
+
+Lemma sent_row_inj a b : sent_row a = sent_row b -> a = b.
+Proof. destruct a as [[k1 v1] r1], b as [[k2 v2] r2]. unfold sent_row, o_handle. cbn. by intros [= -> -> ->]. Qed.
+
+(** The rows a read-all pass presents are, as a multiset, exactly the oracle's live entities. *)
+Lemma rows_perm s x iss rows : Inv s -> ARel s x iss -> length rows = len s ->
+  (forall i, i < len s -> exists e r, abs_at s i = Some (e, r) /\ rows !! i = Some (o_handle e ++ r)) ->
+  rows ≡ₚ sent_row <$> sa_live x.
+Proof.
+  intros HI HA Hlen Hrows.
+  assert (Hmem : forall y, y ∈ rows <-> exists e r, has_row s e r /\ y = o_handle e ++ r).
+  { intros y. split.
+    - intros Hy. apply elem_of_list_lookup in Hy as [i Hi]. assert (Hil : i < len s) by (rewrite <- Hlen; by eapply lookup_lt_Some).
+      destruct (Hrows i Hil) as (e & r & Ha & Hr). rewrite Hi in Hr. injection Hr as ->. exists e, r. split; [by exists i|done].
+    - intros (e & r & (i & Hi & Ha) & ->). destruct (Hrows i Hi) as (e' & r' & Ha' & Hr). rewrite Ha in Ha'. injection Ha' as <- <-.
+      by eapply elem_of_list_lookup_2. }
+  assert (Hlive : forall se, se ∈ sa_live x <-> has_row s (se_h se) (se_vals se)).
+  { intros se. split.
+    - intros Hin. pose proof (find_sent_nodup _ se (a_nodup _ _ _ HA) Hin) as Hf.
+      destruct (decide (se_h se ∈ ents s)) as [He|He]; [|rewrite (a_b2 _ _ _ HA _ He) in Hf; done].
+      destruct (ents_has_row s _ HI He) as [r Hr]. rewrite (a_b1 _ _ _ HA _ _ Hr) in Hf. injection Hf as <-. done.
+    - intros Hr. pose proof (a_b1 _ _ _ HA _ _ Hr) as Hf. destruct (find_sent_some_elem _ _ _ Hf) as [Hin _]. by destruct se. }
+  apply NoDup_Permutation.
+  - apply NoDup_alt. intros i j y Hi Hj.
+    assert (Hil : i < len s) by (rewrite <- Hlen; by eapply lookup_lt_Some). assert (Hjl : j < len s) by (rewrite <- Hlen; by eapply lookup_lt_Some).
+    destruct (Hrows i Hil) as (e1 & r1 & Ha1 & Hr1). destruct (Hrows j Hjl) as (e2 & r2 & Ha2 & Hr2).
+    rewrite Hi in Hr1. rewrite Hj in Hr2. injection Hr1 as ->. injection Hr2 as Heq.
+    assert (e1 = e2) as ->.
+    { destruct e1 as [k1 v1], e2 as [k2 v2]. cbn in *. congruence. }
+    assert (E1 : ents s !! i = Some e2) by (unfold abs_at in Ha1; destruct (ents s !! i); [|done]; destruct (row_at _ _); [|done]; by injection Ha1 as -> _).
+    assert (E2 : ents s !! j = Some e2) by (unfold abs_at in Ha2; destruct (ents s !! j); [|done]; destruct (row_at _ _); [|done]; by injection Ha2 as -> _).
+    eapply NoDup_lookup; [apply (pass_handles_distinct s HI)|done|done].
+  - apply NoDup_fmap_2_strong; [|].
+    + intros a b _ _. apply sent_row_inj.
+    + assert (Hnd : NoDup (handles_of (sa_live x))) by apply (a_nodup _ _ _ HA). unfold handles_of in Hnd. by eapply NoDup_fmap_1.
+  - intros y. rewrite Hmem. rewrite elem_of_list_fmap. split.
+    + intros (e & r & Hr & ->). exists (SE e r). split; [done|]. by apply Hlive.
+    + intros (se & -> & Hin). exists (se_h se), (se_vals se). split; [by apply Hlive|done].
+Qed.
+
+Lemma rel_step_readall cfg d qs st sst p a : Rel d st sst -> a < length (wd_archs d) ->
+  exists st' obs sst', step cfg d qs st (OReadAll p a) = Some (st', obs) /\ obs <> [254%N] /\
+    spec_step cfg d qs sst (OReadAll p a) obs = inr sst' /\ Rel d st' sst'.
+Proof.
+  intros HR Hlt. destruct (rel_cur d st sst HR) as (w & sw & Hw & Hsw & Hcw & Hcsw & HWI & Harch).
+  destruct (lookup_lt_is_Some_2 _ _ Hlt) as [ad Had].
+  destruct (Harch a ad Had) as (s & x & Hs & Hx & HA & (HI & Haid & Hcols)).
+  destruct (all_rows_spec s HI) as (rows & Hall & Hlen & Hrows).
+  assert (Hwidth : Forall (fun r => length r = 2 + length (da_comps ad)) rows).
+  { apply Forall_forall. intros y Hy. apply elem_of_list_lookup in Hy as [i Hi].
+    assert (Hil : i < len s) by (rewrite <- Hlen; by eapply lookup_lt_Some).
+    destruct (Hrows i Hil) as (e & r & Ha & Hr). rewrite Hi in Hr. injection Hr as ->.
+    destruct (abs_at_some s i HI Hil) as (e' & r' & Ha' & _ & Hlr). rewrite Ha in Ha'. injection Ha' as <- <-.
+    unfold o_handle. cbn [app length]. rewrite <- Hcols, <- Hlr. reflexivity. }
+  exists st, (N.of_nat (length rows) :: concat rows), sst. split_and!; [| | |done].
+  - cbn [step]. by rewrite Hcw, Hs, Hall.
+  - intros [= Hn Hc]. destruct rows as [|r rs]; [done|]. apply Forall_cons in Hwidth as [Hr _]. destruct r; [cbn in Hr; lia|done].
+  - assert (Hflat : length (concat rows) = length rows * (2 + length (da_comps ad))).
+    { clear -Hwidth. induction Hwidth as [|r rs Hr _ IH]; [done|]. cbn [concat length]. rewrite app_length, IH, Hr. lia. }
+    cbn [spec_step]. rewrite Hcsw, Hx. unfold ncols_of. rewrite Had.
+    rewrite (chunk_concat (2 + length (da_comps ad)) ltac:(lia) rows (S (length (concat rows))) Hwidth) by (rewrite Hflat; nia).
+    rewrite Nat2N.id, Nat.eqb_refl. rewrite Hflat, Nat.eqb_refl. cbn [negb orb].
+    rewrite (a_sync _ _ _ HA). rewrite Hlen, (a_len _ _ _ HA), Nat.eqb_refl. cbn [negb].
+    by rewrite (multiset_eq_perm rows _ (rows_perm s x (issued st) rows HI HA Hlen Hrows)).
+Qed.
+
 (* ---------------------------------------------------------------- the initial world and whole histories *)
 
 Lemma new_world_fresh archs : forall caps w a s c, new_world archs caps = Ok w tt -> w !! a = Some s -> caps !! a = Some c ->
@@ -1155,7 +1255,7 @@ Lemma rel_step cfg d qs st sst o : wrapping cfg = false -> wf_decl d -> NoDup (d
   exists st' obs sst', step cfg d qs st o = Some (st', obs) /\ obs <> [254%N] /\
     spec_step cfg d qs sst o obs = inr sst' /\ Rel d st' sst'.
 Proof.
-  intros Hwr Hwf Hnd HR Hl0. destruct o as [| | | |a v|a v|l k t r|l k t r|l k t r|p b k t r c v| | | | |a| | | | | | | |]; try done.
+  intros Hwr Hwf Hnd HR Hl0. destruct o as [| | | |a v|a v|l k t r|l k t r|l k t r|p b k t r c v| |p a| | |a| | | | | | | |]; try done.
   - by apply rel_step_create.
   - by apply rel_step_createw.
   - destruct k; [|by destruct l]. destruct t; try (by destruct l). destruct r as [i| |]; try (by destruct l).
@@ -1166,6 +1266,7 @@ Proof.
   - destruct k; [|by destruct l]. destruct t; try (by destruct l). destruct r as [i| |]; try (by destruct l).
     apply rel_step_todirect; try done. destruct l as [|b]; [done|]. cbn [l0_op] in Hl0. by apply Nat.ltb_lt.
   - destruct k; [|done]. destruct t; try done. destruct r as [i| |]; try done. by apply rel_step_write.
+  - apply rel_step_readall; [done|]. cbn [l0_op] in Hl0. by apply Nat.ltb_lt.
   - by apply rel_step_len.
 Qed.
 
